@@ -32,7 +32,7 @@ Print Assumptions C10_logout_profile_iff.
 Theorem C10_logout_flag_iff : forall dsig cfg root el flag,
   logout_signature_step dsig cfg root = Ok (el, flag) ->
   (flag = true <-> cfg_skip_sig cfg = false /\ dsig root = DOk el) /\
-  (flag = false -> el = root /\ (cfg_skip_sig cfg = true \/ dsig root = DMissing)).
+  (flag = false -> el = root /\ (cfg_skip_sig cfg = true \/ (dsig root = DMissing /\ ~ EnvelopedSignature root))).
 Proof. exact logout_step_ok. Qed.
 Print Assumptions C10_logout_flag_iff.
 
